@@ -82,7 +82,7 @@ def unitary_problems(op, name):
     return []
 
 
-def replay(case):
+def replay_once(case):
     import scikit_tt.models as mdl
     cfg, exp = case['cfg'], case['expect']
     m = cfg['model']
@@ -186,6 +186,39 @@ def replay(case):
 
 class _Captured(Exception):
     pass
+
+
+def replay(case):
+    """the model is built and checked, every tensor train a builder returned is then orthonormalised in place (a caller is
+    free to do that with what it was given), and the model is built and checked again: a builder must not hand out
+    arrays it keeps using"""
+    import types
+    from unittest import mock
+    import scikit_tt.models as mdl
+    from scikit_tt.tensor_train import TT
+    made = []
+
+    def recording(f):
+        def g(*a, **k):
+            r = f(*a, **k)
+            for t in (r if isinstance(r, (list, tuple)) else [r]):
+                if isinstance(t, TT):
+                    made.append(t)
+            return r
+        return g
+    names = [n for n, f in vars(mdl).items() if isinstance(f, types.FunctionType) and not n.startswith('_') and f.__module__ == mdl.__name__]
+    with mock.patch.multiple(mdl, **{n: recording(getattr(mdl, n)) for n in names}):
+        out = replay_once(case)
+    if out or not made:
+        return out
+    try:
+        for t in made:
+            if not metadata_problem(t) and t.ranks[0] == 1 and t.ranks[-1] == 1:
+                t.ortho(threshold=1e-12)
+    except Exception:
+        return out
+    return [('second-use:' + sig, 'after the trains returned by the first build were orthonormalised in place, a second build: ' + msg)
+            for sig, msg in replay_once(case)]
 
 
 def slim_history(build, name):
